@@ -781,7 +781,56 @@ class Discharger:
                 return self._list_elem_key(f, d.generators[0].iter, key, depth + 1)
         return None
 
-    def _local_accumulator_keys(self, g: Func, acc: str) -> Optional[Set[str]]:
+    def _dict_values(self, g: Func, d_: str, env: Dict[str, ast.AST]) -> Optional[List[ast.AST]]:
+        """The expressions stored as values of the local dict `d_`, which starts empty and is filled only by
+        `d_.setdefault(k, <record>)` / `d_[k] = <record>` (None: filled some other way)."""
+        init = env.get(d_)
+        if not (isinstance(init, ast.Dict) and not init.keys or isinstance(init, ast.Call) and src(init.func) == "dict" and not init.args and not init.keywords):
+            return None
+        values: List[ast.AST] = []
+        for m in own_nodes(g.node):
+            if isinstance(m, ast.Call) and isinstance(m.func, ast.Attribute) and src(m.func.value) == d_:
+                if m.func.attr == "setdefault" and len(m.args) == 2:
+                    values.append(m.args[1])
+                elif m.func.attr not in ("values", "get", "items", "keys"):
+                    return None
+            if isinstance(m, ast.Assign) and any(isinstance(t, ast.Subscript) and src(t.value) == d_ for t in m.targets):
+                values.append(m.value)
+        return values
+
+    @staticmethod
+    def _values_call(a: ast.AST) -> Optional[str]:
+        """`D.values()`, `list(D.values())`, `[*D.values()]` of a local dict D: its name."""
+        if isinstance(a, ast.Call) and src(a.func) in ("list", "tuple") and len(a.args) == 1:
+            a = a.args[0]
+        if isinstance(a, ast.List) and len(a.elts) == 1 and isinstance(a.elts[0], ast.Starred):
+            a = a.elts[0].value
+        if isinstance(a, ast.Call) and isinstance(a.func, ast.Attribute) and a.func.attr == "values" and isinstance(a.func.value, ast.Name) and not a.args:
+            return a.func.value.id
+        return None
+
+    def _collected_values(self, g: Func, acc: str, env: Dict[str, ast.AST]) -> Optional[list]:
+        """The expressions whose values end up as elements of the local list `acc` (None: a way of filling it that is not
+        read).  An element ("elements", h) stands for: every element of the list the package function h returns."""
+        values: list = []
+        for n in own_nodes(g.node):
+            if isinstance(n, ast.Call) and isinstance(n.func, ast.Attribute) and n.func.attr == "append" and src(n.func.value) == acc and n.args:
+                values.append(n.args[0])
+            elif isinstance(n, ast.Call) and isinstance(n.func, ast.Attribute) and n.func.attr == "extend" and src(n.func.value) == acc and n.args:
+                a = n.args[0]
+                d_ = self._values_call(a)
+                if d_ is not None:
+                    vs = self._dict_values(g, d_, env)
+                    if vs is None:
+                        return None
+                    values.extend(vs)
+                elif isinstance(a, ast.Call) and self._callees(g, a):
+                    values.extend(("elements", h_) for h_ in self._callees(g, a))
+                else:
+                    return None
+        return values
+
+    def _local_accumulator_keys(self, g: Func, acc: str, depth: int = 0) -> Optional[Set[str]]:
         env: Dict[str, ast.AST] = {}
         for n in own_nodes(g.node):
             if isinstance(n, (ast.Assign, ast.AnnAssign)) and n.value is not None:
@@ -789,9 +838,18 @@ class Discharger:
                 if isinstance(t, ast.Name):
                     env[t.id] = n.value
         ks_all: List[Set[str]] = []
-        for n in own_nodes(g.node):
-            if isinstance(n, ast.Call) and isinstance(n.func, ast.Attribute) and n.func.attr == "append" and src(n.func.value) == acc and n.args:
-                v = resolve_local(n.args[0], env)
+        values = self._collected_values(g, acc, env)
+        if values is None:
+            return None
+        if True:
+            for v in values:
+                if isinstance(v, tuple):
+                    sub_e = self._element_keys(v[1], depth + 1) if depth < 4 else None
+                    if sub_e is None:
+                        return None
+                    ks_all.append(sub_e)
+                    continue
+                v = resolve_local(v, env)
                 if isinstance(v, ast.Call) and src(v.func) == "dict":
                     ks_all.append({k.arg for k in v.keywords if k.arg})
                 elif isinstance(v, ast.Dict):
@@ -867,22 +925,33 @@ class Discharger:
             out &= k
         return out
 
-    def _element_keys(self, g: Func) -> Optional[Set[str]]:
+    def _element_keys(self, g: Func, depth: int = 0) -> Optional[Set[str]]:
         """Keys of every dict appended to the list g returns."""
         ks_all: List[Set[str]] = []
         rets = [r.value for r in own_nodes(g.node) if isinstance(r, ast.Return) and r.value is not None]
-        if not rets or not all(isinstance(r, ast.Name) for r in rets):
-            return None
-        acc = rets[0].id
         env: Dict[str, ast.AST] = {}
         for n in own_nodes(g.node):
             if isinstance(n, (ast.Assign, ast.AnnAssign)) and n.value is not None:
                 t = n.targets[0] if isinstance(n, ast.Assign) else n.target
                 if isinstance(t, ast.Name):
                     env[t.id] = n.value
-        for n in own_nodes(g.node):
-            if isinstance(n, ast.Call) and isinstance(n.func, ast.Attribute) and n.func.attr == "append" and src(n.func.value) == acc and n.args:
-                v = resolve_local(n.args[0], env)
+        if len(rets) == 1 and self._values_call(rets[0]) is not None:
+            values = self._dict_values(g, self._values_call(rets[0]), env)  # return list(D.values())
+        elif rets and all(isinstance(r, ast.Name) for r in rets):
+            values = self._collected_values(g, rets[0].id, env)
+        else:
+            return None
+        if values is None:
+            return None
+        if True:
+            for v in values:
+                if isinstance(v, tuple):
+                    sub_e = self._element_keys(v[1], depth + 1) if depth < 4 else None
+                    if sub_e is None:
+                        return None
+                    ks_all.append(sub_e)
+                    continue
+                v = resolve_local(v, env)
                 if isinstance(v, ast.Call) and src(v.func) == "dict":
                     ks_all.append({k.arg for k in v.keywords if k.arg})
                 elif isinstance(v, ast.Dict):
